@@ -195,6 +195,18 @@ def floats():
         yield case("int f@(%s a, int b){ if (a) return 1; return 2; }" % t, "int", [t, "int"], "F", "cond-if/" + t)
         yield case("int f@(%s a, int b){ return (a ? 5 : 7) + (!a) * 10 + (a && b) * 100 + (a || b) * 1000; }" % t, "int", [t, "int"], "F", "cond-ops/" + t)
         yield case("int f@(%s a, int b){ int n = 0; while (a) { a = a - a; n++; } return n; }" % t, "int", [t, "int"], "F", "cond-while/" + t)
+    # the converted operand is used again afterwards (a conversion sequence must not change its source)
+    for it in INT_TYPES:
+        for t in ("float", "double"):
+            yield case("%s f@(%s a, int b){ %s d = (%s)a; %s r = (%s)(a >> 1); return d + r + (%s)(a & 7); }" % (t, it, t, t, t, t, t), t, [it, "int"], "F",
+                       "int->float/source-used-again/%s->%s" % (it, t))
+            yield case("long long f@(%s a, int b){ long long n = (long long)a; %s h = a / 2; return n + (long long)h + (long long)(a + h); }" % (t, t), "long long", [t, "int"], "F",
+                       "float->int/source-used-again/%s" % t)
+    # memory operands at displacements around the 8 bit limit (base + 127 / 128 / 129, base - 128 / - 129)
+    yield case("struct S@ { char pad[124]; int w; int x; int y; }; struct S@ gb@; int f@(int a, int b){ struct S@ *p = &gb@; p->pad[123] = (char)a; p->w = a - b; p->x = b; p->y = a + b; "
+               "return p->x * 3 + p->y + p->pad[123] + p->w * 7; }", "int", ["int", "int"], "A", "struct-field-offset-124-128-132", restore=["gb@"])
+    yield case("int arr@[80]; int f@(int a, int b){ int *q = arr@ + 40; q[32] = a; q[31] = b; q[-32] = a - b; q[-33] = a + b; return q[32] - q[-32] * 3 + q[31] * 5 + q[-33] * 7 + arr@[8]; }",
+               "int", ["int", "int"], "A", "pointer-index-plus-minus-128", restore=["arr@"])
     yield case("double f@(float a){ return a; }", "double", ["float"], "F", "float->double")
     yield case("float f@(double a){ return (float)a; }", "float", ["double"], "F", "double->float")
     yield case("int f@(double a){ return (int)(a*100.7); }", "int", ["double"], "F", "float->int/truncation")
